@@ -112,3 +112,10 @@ Definition selfheal_ops (cname fname : list N) (live : list (list N * list N * b
   :: map (fun e => OWrite (mkL OpInsert (fst (fst e)) (snd (fst e))) (snd e)) live ++ [OClose].
 
 End SwampName.
+
+(* index.go:listSwamps pagination: the matching swamps, in the one order of the listing, cut to
+   [Offset, Offset+Limit) *)
+Definition page {A} (off lim : nat) (l : list A) : list A := firstn lim (skipn off l).
+(* walking a listing page by page from offset [off] with page size [lim], [n] pages *)
+Fixpoint pages {A} (n off lim : nat) (l : list A) : list A :=
+  match n with O => [] | S k => page off lim l ++ pages k (off + lim) lim l end.
